@@ -326,7 +326,7 @@ func stcpCase(g *hx.Gen, idx int, held bool) (*visCase, string) {
 }
 
 func runVisitor(cfg *hx.RunCfg) error {
-	hx.Quiet()
+	quiet()
 	g := hx.NewGen(cfg.Seed)
 	var cases []string
 	var fails []map[string]any
